@@ -27,7 +27,9 @@ type ExecResult struct {
 	Steps  int
 	Idle   bool // the token queue emptied within the step limit
 	Sites  []MapSite
-	Panics []string // panics of reconcile steps
+	Panics []string               // panics of reconcile steps
+	Docs   map[string][]pluginDoc // documents the model plugins received, per target, in order
+	DevLog map[string][]devReq    // requests the devices received, per target, in order
 }
 
 // HistWorld wraps a world that is kept at idle between requests.
@@ -63,6 +65,18 @@ func (h *HistWorld) finishCall(c *Call, offs []uint8, run func() *Call) ExecResu
 		res.Steps, left = h.W.Drain(q, drainLimit, func(t Token, r StepResult) {
 			if r.Panic != "" {
 				res.Panics = append(res.Panics, fmt.Sprintf("%s %s: %s", t.Ctrl, t.ID, r.Panic))
+			}
+			for tg, d := range r.Docs {
+				if res.Docs == nil {
+					res.Docs = map[string][]pluginDoc{}
+				}
+				res.Docs[tg] = append(res.Docs[tg], d...)
+			}
+			for tg, d := range r.DevLog {
+				if res.DevLog == nil {
+					res.DevLog = map[string][]devReq{}
+				}
+				res.DevLog[tg] = append(res.DevLog[tg], d...)
 			}
 		})
 		res.Idle = len(left) == 0
